@@ -21,6 +21,9 @@ CHECK_DEADLOCK FALSE
 """
 
 
+REPLAY = ("TraceLoader", TRACE_CFG)
+
+
 def signature(events, at):
     ev = json.loads(events[at - 1]) if 0 < at <= len(events) else {}
     first = json.loads(events[0])
